@@ -443,6 +443,45 @@ def adequacy(prop):
     return out
 
 
+def generated_sample(prop, n=48):
+    """A deterministic sample of the machine-generated mutants (tools/mutscan.py) inside the ranges `prop` is anchored in,
+    run against the check of `prop` alone.  A measurement of the check (thorough tier, informational): unreported mutants
+    are often behaviour-preserving, see DESIGN 10.3."""
+    tools = os.path.join(core.VERIF, "tools")
+    if tools not in sys.path:
+        sys.path.insert(0, tools)
+    import mutscan as ms
+
+    jobs = []
+    for rel, rs in sorted(ms.anchor_ranges().items()):
+        path = os.path.join(core.REPO, rel)
+        if not rel.endswith(".py") or not os.path.exists(path):
+            continue
+        mine = [(lo, hi) for lo, hi, p in rs if p == prop]
+        if not mine:
+            continue
+        for m in ms.mutants_of(rel, open(path, newline="").read()):
+            if any(lo <= m["line"] <= hi for lo, hi in mine):
+                jobs.append((m, [prop]))
+    total = len(jobs)
+    if total > n:
+        step = total / float(n)
+        jobs = [jobs[int(i * step)] for i in range(n)]
+    out = {"generated_in_anchor_ranges": total, "sampled": len(jobs), "reported": 0, "analysis_error": 0, "unreported": []}
+    if not jobs:
+        return out
+    with ProcessPoolExecutor(max_workers=min(16, len(jobs))) as ex:
+        res = list(ex.map(ms.run_one, jobs))
+    for r in res:
+        if r["status"] == "caught":
+            out["reported"] += 1
+        elif r["status"] == "analysis-error":
+            out["analysis_error"] += 1
+        elif r["status"] == "missed":
+            out["unreported"].append("%s:%d %s `%s` -> `%s`" % (r["file"].rsplit("/", 1)[-1], r["line"], r["kind"], r["old"][:30], r["new"][:30]))
+    return out
+
+
 def main(argv):
     t0 = time.time()
     only = [a for a in argv if not a.startswith("-")]
